@@ -165,6 +165,11 @@ impl Tour {
         let mut tour_nodes: Vec<NodeIdx> = self.nodes[..pos_seg_start].to_vec();
         tour_nodes.extend(self.nodes[pos_seg_end + 1..].iter().copied());
         let removed_nodes: Vec<NodeIdx> = self.nodes[pos_seg_start..pos_seg_end + 1].to_vec();
+        let new_dead_head_distance = if self.dead_head_distance == Distance::Infinity {
+            Tour::compute_dead_head_distance_of_nodes(&tour_nodes, &self.network)
+        } else {
+            new_dead_head_distance
+        };
         if tour_nodes.is_empty() || (!self.is_dummy() && tour_nodes.len() <= 2) {
             return Ok((
                 None,
@@ -263,6 +268,11 @@ impl Tour {
         let removed_nodes: Vec<NodeIdx> = new_tour_nodes
             .splice(start_pos..end_pos, new_nodes)
             .collect();
+        let new_dead_head_distance = if self.dead_head_distance == Distance::Infinity {
+            Tour::compute_dead_head_distance_of_nodes(&new_tour_nodes, &self.network)
+        } else {
+            new_dead_head_distance
+        };
 
         // 1) if new path contains maintenance then the new tour has a maintenance node. Otherwise:
         // 2) if the old tour had no maintenance node than the new tour has no maintenance node either.
